@@ -153,6 +153,8 @@ def run(ctx):
             n, dis, outs = core.compare_construct(flat, mask, ctx.tally)
             for v, s, mo, io_ in dis:
                 ctx.disagree("model-vs-code:v%s:accessors" % v, s, mo[:300], io_[:300])
+    from .. import conc
+    conc.pickle_across(ctx, [(v, x) for v, s, ps, _, _ in cases[:: max(1, len(cases) // 30)] for x in (s, ps)], "value")
     pred = predictions([(v, x) for v, s, ps, _, _ in cases for x in (s, ps)]) if ctx.model_available else {}
     ctx.extra["results_checked_against_the_model"] = len(pred)
     for ver, s, ps, equal, seq in cases:
